@@ -64,8 +64,8 @@ const (
 	drGPU  = string(schedulingv1alpha1.GPU)
 	drRDMA = string(schedulingv1alpha1.RDMA)
 	drNS   = "default"
-	// memory of one GPU in bytes; a whole percentage of it is a whole number of bytes
-	drGPUMem = int64(16000000000)
+	// memory of one GPU in bytes (16Gi: not a multiple of 100, a percentage of it is in general not a whole number of bytes)
+	drGPUMem = int64(16) << 30
 )
 
 // ---------------------------------------------------------------- plan types
@@ -107,7 +107,7 @@ func (q *drReq) perDevice() corev1.ResourceList {
 	return corev1.ResourceList{
 		apiext.ResourceGPUCore:        *resource.NewQuantity(q.Pct, resource.DecimalSI),
 		apiext.ResourceGPUMemoryRatio: *resource.NewQuantity(q.Pct, resource.DecimalSI),
-		apiext.ResourceGPUMemory:      *resource.NewQuantity(drGPUMem/100*q.Pct, resource.BinarySI),
+		apiext.ResourceGPUMemory:      *resource.NewQuantity(q.Pct*drGPUMem/100, resource.BinarySI), // as another instance of this scheduler records it
 	}
 }
 
